@@ -716,10 +716,13 @@ def explore(job):
             out.extend(vs)
         return out
 
+    import time
+    t0 = time.process_time()
     res = bfs(build, enabled, canon, check, max_depth=depth, initial=[tuple(e) for e in initial])
+    cpu = time.process_time() - t0
     H.close_all()
     return {"job": (variant, kinds, [list(e) for e in initial], depth, mode), "states": res.states,
-            "transitions": res.transitions, "max_depth": res.max_depth + len(initial), "violations": res.violations,
+            "transitions": res.transitions, "cpu_s": cpu, "max_depth": res.max_depth + len(initial), "violations": res.violations,
             "kinds_seen": sorted(stats["kinds_seen"]), "evclasses": sorted(stats["evclasses"], key=str),
             "sample": [stats["deepest"]] if stats["deepest"] else [], "obs": sorted(stats["obs"], key=str)}
 
@@ -766,15 +769,18 @@ def run(ctx):
         depth = 5
         plan = [("enc", windows(ENC_ORDER, 3, 3), depth), ("plain", windows(PLAIN_ORDER, 3, 3), depth)]
     else:
-        plan = [("enc", windows(ENC_ORDER, 3, 2), 6), ("plain", windows(PLAIN_ORDER, 3, 2), 6),
-                ("enc", windows(ENC_ORDER, 2, 1), 7), ("plain", windows(PLAIN_ORDER, 2, 1), 7),
-                ("enc", [MIX], 5), ("enc", [ENC_ORDER], 3), ("plain", [PLAIN_ORDER], 4)]
+        # calibrated: ~5 500 cpu-s on an idle machine (a clean window of 3 kinds at depth 6 has ~90 k transitions)
+        plan = [("plain", windows(PLAIN_ORDER, 3, 3), 6),
+                ("enc", [w for w in windows(ENC_ORDER, 3, 3) if any(k in INTERNAL for k in w)], 6),
+                ("plain", [[k] for k in PLAIN_ORDER], 7), ("enc", [[k] for k in ENC_ORDER], 7),
+                ("enc", [MIX], 4), ("enc", [ENC_ORDER], 3), ("plain", [PLAIN_ORDER], 4)]
     jobs = []
     for variant, kindsets, depth in plan:
         jobs += jobs_for(variant, kindsets, depth)
     jobs = shuffled(jobs, ctx.seed, "c08")
     # expensive parts first for load balance (the seed permutes the order inside each cost class)
-    jobs.sort(key=lambda j: (j[0] != "enc", -j[3], len(j[2]) == 2 and j[2][1][0] != "req"))
+    jobs.sort(key=lambda j: (-(j[3] * 10 + min(len(j[1]), 3) * 12 + (5 if j[0] == "enc" else 0)),
+                             len(j[2]) == 2 and j[2][1][0] != "req"))
     states = transitions = 0
     kinds_seen = set()
     evclasses = set()
@@ -789,7 +795,9 @@ def run(ctx):
         kinds_seen.update(tuple(x) for x in res["kinds_seen"])
         obsvec.update(res["obs"])
         evclasses.update(tuple(x) for x in res["evclasses"])
-        pv = per_variant.setdefault(res["job"][0], {"states": 0, "transitions": 0, "jobs": 0})
+        pv = per_variant.setdefault("%s stack, %d kinds, depth <= %d" % (res["job"][0], len(res["job"][1]), res["job"][3] + len(res["job"][2])),
+                                    {"states": 0, "transitions": 0, "jobs": 0, "cpu_s": 0.0})
+        pv["cpu_s"] = round(pv["cpu_s"] + res["cpu_s"], 1)
         pv["states"] += res["states"]
         pv["transitions"] += res["transitions"]
         pv["jobs"] += 1
@@ -810,7 +818,7 @@ def run(ctx):
         "max_depth": maxdepth,
         "distinct_outcomes": len(obsvec),
         "bfs_runs": len(jobs),
-        "per_variant": per_variant,
+        "per_part": per_variant,
         "request_kinds": sorted(all_kinds),
         "kinds_with_result_and_error_reply_explored": sorted(answered),
         "kinds_never_answered_both_ways": sorted(all_kinds - answered),
